@@ -283,24 +283,32 @@ def step(G, model, op):
     elif expect == 'either':
         pass
     elif expect in ('nonint', 'nonint-partial', 'partial-any'):
-        # arguments that are not integers: an integral float may be taken as that integer, or the call
-        # is refused with an exception; if it is refused nothing may change
-        if exc is None:
-            vals = [int(x) if isinstance(x, float) and x == int(x) else x for x in _flat(op[1:])]
-            if all(_is_int(x) for x in vals):
-                model.n, model.E = before_n, set(before_E)
-                op2 = _rebuild(op, vals)
-                apply_model(model, op2)
-            else:
-                return (opname + ':nonint:accepted', '{} was accepted'.format(op))
-        elif expect == 'nonint':
-            model.n, model.E = before_n, set(before_E)
+        # an argument is not an integer (for add_edges_from the model already holds the edges before it).
+        # Allowed outcomes: the call raises and nothing (more) changes; the call returns and nothing
+        # (more) changes; the call returns and an integral float was taken as that integer.
+        cands = [(model.n, set(model.E))]
+        vals = [int(x) if isinstance(x, float) and x == int(x) else x for x in _flat(op[1:])]
+        if exc is None and expect != 'partial-any' and all(_is_int(x) for x in vals):
+            m3 = copy.deepcopy(model)
+            m3.n, m3.E = before_n, set(before_E)
+            if apply_model(m3, _rebuild(op, vals)) == 'ok':
+                cands.append((m3.n, m3.E))
+        first = None
+        for n_, E_ in cands:
+            model.n, model.E = n_, set(E_)
+            bad = check_views(G, model)
+            if bad is None:
+                return None
+            first = first or bad
+        model.n, model.E = cands[0]
+        if exc is not None:
+            return (opname + ':nonint:side-effect', 'after refused {} ({}): {}'.format(op, type(exc).__name__, first[1]))
+        return (opname + ':nonint:inconsistent', 'after accepted {}: {}'.format(op, first[1]))
     bad = check_views(G, model)
     if bad:
-        tag = ':nonint' if expect.startswith('nonint') else ''
-        if exc is not None and expect in ('refuse', 'either', 'nonint'):
-            return (opname + tag + ':side-effect:' + bad[0], 'after refused {} ({}): {}'.format(op, type(exc).__name__, bad[1]))
-        return (opname + tag + ':' + bad[0], 'after {}: {}'.format(op, bad[1]))
+        if exc is not None and expect in ('refuse', 'either'):
+            return (opname + ':side-effect:' + bad[0], 'after refused {} ({}): {}'.format(op, type(exc).__name__, bad[1]))
+        return (opname + ':' + bad[0], 'after {}: {}'.format(op, bad[1]))
     return None
 
 
